@@ -826,6 +826,25 @@ impl Shape {
         let corpus = corpus_recs();
         let id = 700_000 + cx.idx as usize;
         create_store(id, take_lang(lang));
+        if cx.rng.chance(1, 3) {
+            // the id had an earlier life that ended with hits in its result buffer: a new life starts with an empty buffer
+            // (read before its first search), whatever language it is created with
+            add_record(id, 11, "metal mailbox", 3);
+            add_record(id, 12, "yellow metal", 1);
+            run_search(id, "metal");
+            let before = bridge::get_result_ids(id);
+            destroy_store(id);
+            create_store(id, take_lang(lang));
+            let ids = bridge::get_result_ids(id);
+            let titles = bridge::get_result_titles(id);
+            cx.eval();
+            cx.count("result buffers read right after an id was destroyed and created again");
+            if !ids.is_empty() || !titles.is_empty() {
+                cx.fail("unknown-id", json!({"lang": lang, "history": format!("create({}), add(11, 'metal mailbox'), add(12, 'yellow metal'), search('metal') -> ids {:?}, destroy, create, read results", id, before), "records_now_in_the_store": [], "result_ids": ids, "result_titles": titles}));
+                destroy_store(id);
+                return;
+            }
+        }
         let n = cx.rng.range(1, 6);
         let mut recs: Vec<Rec> = vec![];
         for i in 0..n {
